@@ -13,6 +13,7 @@ DOMAINS = {
     "regs": {"letter": "R", "header_tokens": 2},
     "heap": {"letter": "H", "header_tokens": 3},
     "lexer": {"letter": "L", "header_tokens": 3},
+    "match": {"letter": "M", "header_tokens": 6},
 }
 
 PROPS = {
@@ -79,6 +80,18 @@ PROPS["C20"] = {
     "rule": "cases = (queue capacity, heap size, history of pushes with texts / SYST:ERR? / clear / count); all histories up to length 5 (quick) / 6 (thorough) over a 9-letter alphabet on a grid of capacities and heap sizes 2..12, random histories up to 150 operations on heaps of 0..60 bytes; non-trivial = at least two operations",
 }
 
+PROPS["C03"] = {
+    "module": "ScpiVerif.Props.C03",
+    "domains": [{"name": "match", "cfgs": ["A"]}],
+    "clauses": ["C03."],
+    "level": "proof",
+    "trusted_base": [KERNEL, CORR, PLATFORM, "Spec/Pattern.lean: pattern grammar, accepted language (all readings), well-formedness side condition"],
+    "assumptions": ["Model/Match.lean transcribes matchCommand / matchPattern / compareStr / compareStrAndNum / the separator searches",
+                    "headers over the lexer's header alphabet, numeric suffix values < 2^31 (DESIGN.md section 9)",
+                    "patterns outside the property's grammar (nested brackets etc.) are only corresponded, not judged"],
+    "rule": "cases = (pattern, header, caller's length, numbers capacity, default); patterns of 1..4 keywords from a 17-keyword pool with optional / numeric / query flags, common patterns, and the patterns shipped in tests and examples; headers assembled per keyword from short form, long form, near misses (one letter more / less, between short and long, other keyword, digits appended), four case styles, optional leading colon, '?', dropped / surplus mnemonics; non-trivial = non-empty header",
+}
+
 NOT_CLAIMED = {}
 
 _T = {
@@ -101,9 +114,12 @@ _T["C13"] = ("Theorems per recogniser: the model of each scpiLex_* function cons
 _T["C20"] = ("Theorems text_intact_or_absent / empty_means_reusable / fits_means_stored over the model of the circular string heap and the queue on top of it, for every heap size, capacity and history.",
             "Lean kernel + standard axioms; model tied to utils.c/error.c (configuration B) by exhaustive short and random long histories comparing internal heap state",
             "Lean 4 invariant proof (circular heap) + differential correspondence")
+_T["C03"] = ("Theorems: for every pattern of the property's grammar that satisfies the side condition and every header over the header alphabet, the model of matchCommand accepts iff the header is in the pattern's short/long-form language, and reports the numeric suffixes in keyword order with the caller's default for omitted ones.",
+            "Lean kernel + standard axioms; model tied to utils.c by pattern-directed differential testing; Spec/Pattern.lean is the reading of the property",
+            "Lean 4 theorem (greedy walker = declarative language under the side condition) + differential correspondence")
 for _k, (_a, _b, _c) in _T.items():
     PROPS[_k]["level_text"], PROPS[_k]["level_note"], PROPS[_k]["technique"] = _a, _b, _c
 
 # properties whose theorem module is not complete yet are not claimed
-for _k in ("C13", "C20"):
+for _k in ("C13", "C20", "C03"):
     PROPS[_k]["unclaimed"] = True
